@@ -292,7 +292,7 @@ def normalize_url(
 
     # Handling punycode
     if hostname:
-        hostname = decode_punycode_hostname(hostname)
+        hostname = decode_punycode_hostname(hostname).lower()
 
     # Dropping :80 & :443
     if (port == 80 and scheme == "http") or (port == 443 and scheme == "https"):
@@ -424,7 +424,7 @@ def normalize_url(
 
     # Result
     netloc = unsplit_netloc(user, password, hostname or "", port)
-    result = SplitResult(scheme, netloc.lower(), path, query, fragment)
+    result = SplitResult(scheme, netloc, path, query, fragment)
 
     if not unsplit:
         return result
